@@ -46,7 +46,6 @@ theorem finishBlob_good (wr : Wr) (full : Int) (c : CopyRes)
     (hc : ∃ d, c.w.out = wr.out ++ d ∧ c.written = d.length ∧ c.w.over = wr.over) : Good wr 0 (finishBlob full c) := by
   obtain ⟨d, h1, h2, h3⟩ := hc
   unfold finishBlob
-  simp only
   split
   · refine ⟨fun _ => by split <;> simp, by split <;> simp, by split <;> simp, ⟨d, h1, by simp [h2]⟩, h3⟩
   · split
@@ -89,9 +88,15 @@ theorem defaultCase_good (B : Nat) (t : UInt8) (bs : List UInt8) (wr : Wr) (o : 
   · rw [hd] at h; exact msgCase_good t m r wr o h
   · rw [hd] at h; cases h; exact good_const wr _ _ _ (by simp) (by simp) (by simp)
 
-theorem good_acc (wr : Wr) (acc : Nat) (o : Out) (h : Good wr 0 o) : Good wr acc { o with n := acc + o.n } := by
+theorem good_acc (wr : Wr) (acc : Nat) (o : Out) (h : Good wr 0 o) :
+    Good wr acc { o with n := acc + o.n, clean := o.clean && decide (o.err = .none) } := by
   obtain ⟨h1, h2, h3, ⟨d, h4, h5⟩, h6⟩ := h
-  exact ⟨h1, h2, h3, ⟨d, h4, by simp only; omega⟩, h6⟩
+  refine ⟨?_, h2, h3, ⟨d, h4, by simp only; omega⟩, h6⟩
+  intro hc
+  simp only [Bool.and_eq_false_imp, decide_eq_false_iff_not] at hc
+  cases hcl : o.clean with
+  | false => exact h1 hcl
+  | true => exact hc hcl
 
 /-- the invariant holds for every fuel, writer and input, for `streamTo` and for the chunk loop -/
 theorem all_good (B : Nat) : ∀ f,
